@@ -266,6 +266,42 @@ def global_state(ns):
         "BF3TAG": d(sorted((k, v) for k, v in vars(ns.bf3file.BF3TAG).items() if not k.startswith("_"))),
         "BF3INTF": d(sorted((k, v) for k, v in vars(ns.bf3file.BF3INTF).items() if not k.startswith("_"))),
     }
+    # generic part: every module-level name and every class attribute of the bec2format modules and of the crypto plug-in
+    # module (values digested structurally; objects by type) - catches defaults / caches / flags nobody listed above
+    import sys
+    import types
+
+    def g(o, depth=0):
+        if o is None or isinstance(o, (bool, int, float, str)):
+            return repr(o)
+        if isinstance(o, (bytes, bytearray)):
+            return "b:" + bytes(o).hex()
+        if isinstance(o, (list, tuple)):
+            return "[" + ",".join(g(x, depth + 1) for x in o[:2000]) + "]" if depth < 4 else "seq%d" % len(o)
+        if isinstance(o, dict):
+            return "{" + ",".join(sorted(g(k, depth + 1) + ":" + g(v, depth + 1) for k, v in list(o.items())[:5000])) + "}" if depth < 4 else "dict%d" % len(o)
+        if isinstance(o, (set, frozenset)):
+            return "set(" + ",".join(sorted(g(x, depth + 1) for x in o)) + ")"
+        if isinstance(o, type):
+            return "class:" + o.__module__ + "." + o.__qualname__
+        if isinstance(o, (types.FunctionType, types.BuiltinFunctionType, types.MethodType, classmethod, staticmethod, property)):
+            return "callable:" + getattr(o, "__qualname__", type(o).__name__)
+        if isinstance(o, types.ModuleType):
+            return "module:" + o.__name__
+        return "obj:" + type(o).__module__ + "." + type(o).__qualname__
+
+    mods = [m for n, m in sorted(sys.modules.items()) if m is not None and (n == "bec2format" or n.startswith("bec2format.") or n == "register_crypto_plugin")]
+    for m in mods:
+        items = []
+        for name, val in sorted(vars(m).items()):
+            if name.startswith("__") and name.endswith("__"):
+                continue
+            items.append(name + "=" + g(val))
+            if isinstance(val, type) and val.__module__ == m.__name__:
+                for an, av in sorted(vars(val).items()):
+                    if not (an.startswith("__") and an.endswith("__")):
+                        items.append(name + "." + an + "=" + g(av))
+        snap["module:" + m.__name__] = d(items)
     if hasattr(ns, "curves"):
         cs = []
         for cv in ns.curves.curves:
